@@ -37,6 +37,17 @@ Theorem C41_reset_honoured : forall c s i, i_reset i = true ->
 Proof. exact lt_reset_honoured. Qed.
 Print Assumptions C41_reset_honoured.
 
+(* time-outs at the level of FSM states (covers the TS2 phases, which the outputs do not distinguish): a state with
+   time-out T (st_timeout: 12 ms for Rx.Detect.Quiet, Polling.Active/Configuration, Hot Reset.Active,
+   Recovery.Active/Configuration, SS.Inactive.Quiet; 2 ms for Polling.Idle, Hot Reset.Exit, Recovery.Idle; 360 ms for
+   Polling.LFPS) is never occupied for more than T+1 consecutive cycles *)
+Theorem C41_timeouts : forall c, T12 c < 2 ^ cw c -> T2 c < 2 ^ cw c -> T360 c < 2 ^ cw c ->
+  forall pre mid f T, st_timeout c f = Some T ->
+  (forall j, (j <= length mid)%nat -> st (lt_run c (lt_run c lt_init pre) (firstn j mid)) = f) ->
+  N.of_nat (length mid) <= T.
+Proof. exact lt_dwell. Qed.
+Print Assumptions C41_timeouts.
+
 (* ---- sanity / non-vacuity ---- *)
 Definition c25 : lt_cfg := {| T12 := 1; T2 := 1; T360 := 9; cw := 4; loosen := true |}.
 (* a bring-up: phy_ready, partner, LFPS (16 sent), 20 sent, TSEQ burst, TS1 burst, TS1 seen, TS2 seen, TS2 burst,
